@@ -1,10 +1,10 @@
 \* EXPECTED TO BE REJECTED: outside the quantifier (reactions across two interfaces / gas+bulk only) no phase or two phases list the reaction - why the quantifier is narrow
 SPECIFICATION Spec
 CONSTANTS
-  MaxPhases = 3
-  SpCounts <- Sp3
-  MaxRx = 2
-  MaxIa = 1
+  MaxPhases = 2
+  SpCounts <- Sp2
+  MaxRx = 1
+  MaxIa = 0
   MaxCalls = 3
   Variant = "fixed"
   Scope = "wide"
